@@ -147,7 +147,7 @@ def rand_mark(rng, schema):
     for an, a in t.attrs.items():
         if a.has_default and rng.random() < 0.5:
             continue
-        at[an] = rng.choice(["foo", "bar"]) if an != "id" else rng.randint(0, 2)
+        at[an] = rng.choice(["foo", "bar", "baz"]) if an != "id" else rng.randint(0, 2)
     return t.create(at or None)
 
 
@@ -336,6 +336,9 @@ def adversarial_step(rng, g: gen.DocGen, doc: Node, docs) -> Step:
     sc = g.schema
     r = rng.random()
     a, c = rand_range(rng, doc)
+    if r < 0.08:
+        # plain deletions across node boundaries (joins)
+        return ReplaceStep(a, c, Slice.empty, rng.random() < 0.15)
     if r < 0.3:
         sl = g.slice_from(rng.choice(docs))
         return ReplaceStep(a, c, sl, rng.random() < 0.25)
@@ -387,6 +390,12 @@ def adversarial_step(rng, g: gen.DocGen, doc: Node, docs) -> Step:
     if r < 0.78:
         return RemoveMarkStep(a, c, rand_mark(rng, sc))
     if r < 0.86:
+        marked = [(p, nd) for p, nd in all_positions_with_nodes(doc) if not nd.is_text and nd.marks]
+        if marked and rng.random() < 0.6:
+            p, nd = rng.choice(marked)
+            if rng.random() < 0.5:
+                return AddNodeMarkStep(p, rand_mark(rng, sc))
+            return RemoveNodeMarkStep(p, rng.choice(nd.marks) if rng.random() < 0.7 else rand_mark(rng, sc))
         return (AddNodeMarkStep if rng.random() < 0.5 else RemoveNodeMarkStep)(a, rand_mark(rng, sc))
     if r < 0.95:
         pn = [(p, nd) for p, nd in all_positions_with_nodes(doc) if nd.type.attrs]
@@ -465,3 +474,35 @@ def rebuild_history(desc):
     doc = Node.from_json(sc, desc["doc"])
     steps = [step_from_desc(sc, s["step"]) for s in desc["steps"]]
     return history_case(fam, doc, steps, Node.from_json(sc, desc["final"]), desc.get("kind", "replay"), desc.get("ops"))
+
+
+def marky_doc(rng, g):
+    """paragraph-like blocks made of several short text pieces with different mark sets (adjacent links with
+    different hrefs, excluded/excluding marks next to each other) — the shapes mark operations coalesce over"""
+    sc = g.schema
+    blocks = []
+    tbs = [t for t in sc.nodes.values() if t.is_textblock and not t.has_required_attrs()]
+    for _ in range(rng.randint(2, 4)):
+        t = rng.choice(tbs)
+        pieces = []
+        for _ in range(rng.randint(1, 5)):
+            ms = Mark.none
+            for _ in range(rng.randint(0, 2)):
+                m = rand_mark(rng, sc)
+                if t.allows_mark_type(m.type):
+                    ms = m.add_to_set(ms)
+            pieces.append(sc.text(rng.choice(["ab", "c", "de f", "\U0001F600"]), ms))
+        try:
+            blocks.append(t.create_checked(g.attrs_for(t), Fragment.from_(pieces)))
+        except ValueError:
+            continue
+    if not blocks:
+        return g.doc(3)
+    try:
+        d = sc.top_node_type.create_and_fill(g.attrs_for(sc.top_node_type), Fragment.from_(blocks))
+        if d is None:
+            return g.doc(3)
+        d.check()
+        return d
+    except ValueError:
+        return g.doc(3)
